@@ -9,8 +9,11 @@ from .. import core, tlc
 # deviations the current tree still has (the machine's deviant track); the others are kept in the spec as expected-fail self-tests
 ALL_DEV = ["D_CTE_VISIBLE_IN_OWN_BODY"]
 SPEC_DEV = ["D_COMMA_JOIN_DROPS_JOINED", "D_SCALAR_SUBQUERY_BLIND", "D_HAVING_SUBQUERY_BLIND", "D_CTE_VISIBLE_IN_OWN_BODY"]
+SPEC_DEV2 = ["D_ON_SUBQUERY_BLIND", "D_NESTED_SET_OPERATION_BLIND"]      # need the clauses of NEST_CLAUSES to fire
 ALL_CLAUSES = {"where", "isub", "having", "union"}
 PAREN_CLAUSES = {"where", "union", "paren"}
+NEST_CLAUSES = {"union", "on", "ubranch"}
+EVERY_CLAUSE = {"where", "isub", "having", "union", "paren", "on", "ubranch"}
 INVS = ["MachineTablesExact", "LocalsNeverReported", "NoopReportsNothing", "DeviationsAccountedFor", "DefaultEqualsQualified", "EmitCase"]
 
 
@@ -35,6 +38,9 @@ def _run_chunk(args):
                 out.append(None)
                 continue
             o = d.tables(sql, dia)
+            if o["exc"] == "InvalidSyntaxException" and not d.accepts(sql, dia):
+                out.append(None)      # the parser itself rejects the text (deeply nested parenthesised joins): outside the quantifier
+                continue
             o["sql"] = sql
             o["dialect"] = dia
             out.append(o)
@@ -59,8 +65,12 @@ def generate(chk, quick, seed):
                             schemas=("none",)),
                 "generate: parenthesised joins", workers=1, coverage=False, timeout=5000)
     cases += [c for c in r.cases("CASE") if any(e["e"] == "paren" for e in c["prog"])]
+    r = chk.tlc("Stmt", cfg(chk, "genn", 8 if quick else 9, kinds=("insert",), known=ALL_DEV, emit=True, clauses=NEST_CLAUSES, tbl=("a", "b"), ctes=("x",),
+                            schemas=("none",), maxcte=0),
+                "generate: subqueries in ON conditions, nested set operations", workers=1, coverage=False, timeout=5000)
+    cases += [c for c in r.cases("CASE") if any(e["e"] in ("on", "ubranch") for e in c["prog"])]
     n_exh = len(cases)
-    r = chk.tlc("Stmt", cfg(chk, "gensim", 16, known=ALL_DEV, emit=True, maxdepth=4, maxrel=3, maxcte=2, invariants=["EmitCase"]),
+    r = chk.tlc("Stmt", cfg(chk, "gensim", 16, known=ALL_DEV, emit=True, maxdepth=4, maxrel=3, maxcte=2, invariants=["EmitCase"], clauses=EVERY_CLAUSE),
                 "generate: simulated deeper programs (depth 4)", workers=1, coverage=False,
                 simulate="num=%d" % (4000 if quick else 60000), depth=18, seed=seed, timeout=5000)
     sims = r.cases("CASE")
@@ -81,7 +91,9 @@ def prog_features(prog):
     roles = []
     for e in prog:
         k = e["e"]
-        if k in ("sub", "where", "isub", "having", "cte", "main", "paren"):
+        if k in ("on", "ubranch"):
+            f.add({"on": "on_subquery", "ubranch": "nested_set_operation"}[k])
+        if k in ("sub", "where", "isub", "having", "cte", "main", "paren", "on", "ubranch"):
             if k == "sub" and "paren" in roles:
                 f.add("derived_table_inside_parenthesised_join")
             roles.append(k)
@@ -94,7 +106,7 @@ def prog_features(prog):
                 stack[-1] = True
             elif e["a"] == "comma" and stack[-1]:
                 f.add("comma_after_join")
-        if k in ("sub", "where", "isub", "having", "cte", "main"):
+        if k in ("sub", "where", "isub", "having", "cte", "main", "on", "ubranch"):
             stack.append(False)
             if k in ("having", "isub", "where"):
                 f.add(k + "_subquery")
@@ -151,8 +163,14 @@ def run(chk):
     r = chk.tlc("Stmt", cfg(chk, "mcp", 7 if quick else 8, clauses=PAREN_CLAUSES, kinds=("insert",), schemas=("none",)), "O1 with parenthesised joins", workers=16, timeout=6000)
     if r.violated:
         raise core.MachineryError("Stmt.tla intended mechanism violates %s" % r.violated)
-    for dev in SPEC_DEV:
-        r = chk.tlc("Stmt", cfg(chk, "dev_" + dev, 6, known=[dev], invariants=["DeviantTablesExact"]), "expected-fail " + dev, workers=8,
+    r = chk.tlc("Stmt", cfg(chk, "mcn", 8 if quick else 9, clauses=NEST_CLAUSES, kinds=("insert",), schemas=("none",), maxcte=0),
+                "O1 with subqueries in ON conditions and nested set operations", workers=16, timeout=6000)
+    if r.violated:
+        raise core.MachineryError("Stmt.tla intended mechanism violates %s" % r.violated)
+    chk.require_actions(["OnSub", "NestedBranch"])
+    for dev in SPEC_DEV + SPEC_DEV2:
+        r = chk.tlc("Stmt", cfg(chk, "dev_" + dev, 7 if dev in SPEC_DEV2 else 6, known=[dev], invariants=["DeviantTablesExact"],
+                                clauses=NEST_CLAUSES if dev in SPEC_DEV2 else ALL_CLAUSES), "expected-fail " + dev, workers=8,
                     expect_violation=True, coverage=False)
         chk.self_test("spec finds " + dev, bool(r.violated), ",".join(r.violated))
     cases, n_exh = generate(chk, quick, chk.seed)
@@ -169,9 +187,12 @@ def run(chk):
     finally:
         pool.terminate()
     obs = [x for part in res for x in part]
+    chk.cov["rejected_by_the_parser"] = sum(1 for o in obs if o is None)
+    cases = [c for c, o in zip(cases, obs) if o is not None]
+    obs = [o for o in obs if o is not None]
     verdicts = decide(chk, cases, obs, "stmt")
     for c, v in zip(cases, verdicts):
-        chk.count(c["prog"], nontrivial=len([e for e in c["prog"] if e["e"] in ("sub", "where", "isub", "having", "union", "cte", "paren")]) > 0)
+        chk.count(c["prog"], nontrivial=len([e for e in c["prog"] if e["e"] in ("sub", "where", "isub", "having", "union", "cte", "paren", "on", "ubranch")]) > 0)
     chk.cov["verdicts"] = {k: verdicts.count(k) for k in sorted(set(verdicts))}
     i = min(len(cases) - 1, 3000)
     chk.sample({"sql": obs[i]["sql"], "ideal_reads": cases[i]["reads"], "observed": obs[i]["reads"], "verdict": verdicts[i]})
@@ -188,7 +209,8 @@ def run(chk):
         chk.self_test("a dropped source table / a reported alias is rejected", v[1][1] == "misses_table_read" and v[2][1] == "reports_table_not_read",
                       "%s %s" % (v[1][1], v[2][1]))
     chk.cov["rule"] = ("cases = programs printed by TLC from Stmt.tla: all %d programs in the exhaustive bound (<= %d grammar events for "
-                       "insert/query bodies over joins, comma joins, derived tables, CTEs, union, WHERE / select-list / HAVING subqueries; "
+                       "insert/query bodies over joins, comma joins, derived tables, CTEs, union, WHERE / select-list / HAVING subqueries; parenthesised joins; "
+                       "subqueries in ON conditions and nested set operations; "
                        "every statement kind over bodies <= 5 events) plus %d simulated deeper programs (depth 4); each rendered to SQL and "
                        "analysed by the real LineageRunner under ansi; every observation decided by Trace_Stmt. non-trivial = has a nested "
                        "query, a CTE or a set operation." % (n_exh, 6 if quick else 7, len(cases) - n_exh))
